@@ -27,7 +27,7 @@ def one(name):
     tier = 'quick'
     res = selftest.run_on_scratch(os.path.join(d, 'patch.diff'), checks, tier) or {}
     conf = json.load(open(os.path.join(d, 'confirm.json')))
-    readme = os.path.join(V, '.work', 'staging', prop, ('README_G.md' if name[-1] == 'G' else 'README_EF.md' if name[-1] in 'EF' else ('README_CD.md' if name[-1] in 'CD' else 'README.md')))
+    readme = os.path.join(V, '.work', 'staging', prop, ('README_H.md' if name[-1] == 'H' else 'README_G.md' if name[-1] == 'G' else 'README_EF.md' if name[-1] in 'EF' else ('README_CD.md' if name[-1] in 'CD' else 'README.md')))
     meta = {'seeded_change': name, 'breaks_property': prop,
             'written_by': 'independent sub-agent given only the property text and a scratch worktree',
             'needs_to_manifest': NEEDS.get(name, 'see description.md (excerpt of the author\'s README)'),
